@@ -66,7 +66,7 @@ def c08(tier, seed):
         vs = [(L, H, "false") for L in range(0, 4) for H in range(0, 3)] + [(0, 0, "true"), (0, 2, "true")]
     for (L, H, MN) in vs:
         for sk_, cs in (suites(tier, seed, "v") if th else one_suite(tier, seed, "c08v%d%d" % (L, H))):
-            op("verify_%s_L%d_h%d_%s" % (sk_, L, H, MN[0]), "op_verify::<%s, %d, %d, %s>()" % (cs, L, H, MN), "S3",
+            op("verify_%s_L%d_h%d_%s" % (sk_, L, H, MN[0]), "op_verify::<%s, %d, %d, %s>()" % (cs, L, H, MN), "G",
                dict(entry="verify", suite=sk_, L=L, header_shape=H, msgs_none=MN))
     # (U, index shape, #messages, header shape, ph shape)
     pv = [(0, 0, 0, 0, 0), (1, 1, 1, 2, 2), (0, 2, 2, 1, 0), (2, 2, 2, 0, 1), (1, 3, 2, 0, 0), (0, 1, 0, 0, 0), (1, 0, 1, 0, 2), (1, 4, 2, 0, 0), (1, 5, 2, 0, 0)]
@@ -75,7 +75,7 @@ def c08(tier, seed):
     for (U, ISH, NM, H, PH) in pv:
         for sk_, cs in (suites(tier, seed, "pv") if th else one_suite(tier, seed, "c08pv%d%d%d" % (U, ISH, NM))):
             op("proof_verify_%s_U%d_i%d_N%d_h%d_p%d" % (sk_, U, ISH, NM, H, PH),
-               "op_proof_verify::<%s, %d, %d, %d, %d, %d, %d>()" % (cs, U, 272 + 32 * U, ISH, NM, H, PH), "S3",
+               "op_proof_verify::<%s, %d, %d, %d, %d, %d, %d>()" % (cs, U, 272 + 32 * U, ISH, NM, H, PH), "G",
                dict(entry="proof_verify", suite=sk_, U=U, index_shape=ISH, msgs=NM, header_shape=H, ph_shape=PH))
     # blind_proof_verify arithmetic with ANY L
     ar = [(0, 0, 0, "false"), (1, 0, 0, "false"), (1, 1, 0, "false"), (1, 0, 1, "false"), (2, 1, 1, "false"), (0, 1, 1, "true"), (1, 0, 0, "true")]
@@ -93,7 +93,7 @@ def c08(tier, seed):
     for (U, LC, I1, I2, N1, N2) in bpv:
         for sk_, cs in (suites(tier, seed, "bpv") if th else one_suite(tier, seed, "c08bpv%d%d%d" % (U, I1, I2))):
             op("blind_proof_verify_%s_U%d_L%d_i%d_%d_n%d_%d" % (sk_, U, LC, I1, I2, N1, N2),
-               "op_blind_proof_verify::<%s, %d, %d, %d, %d, %d, %d, %d>()" % (cs, U, 272 + 32 * U, LC, I1, I2, N1, N2), "S3",
+               "op_blind_proof_verify::<%s, %d, %d, %d, %d, %d, %d, %d>()" % (cs, U, 272 + 32 * U, LC, I1, I2, N1, N2), "G",
                dict(entry="blind_proof_verify", part="index handling", suite=sk_, U=U, L=LC, index_shapes=[I1, I2], msgs=[N1, N2]))
     bsl = [1, 47, 48, 79, 112, 113, 144]
     if th:
@@ -101,40 +101,40 @@ def c08(tier, seed):
     for n in bsl:
         for L in ([0, 1] if th else [pick(seed, "bsL%d" % n, [0, 1], 1)[0]]):
             for sk_, cs in one_suite(tier, seed, "c08bs%d" % n):
-                op("blind_sign_%s_len%d_L%d" % (sk_, n, L), "op_blind_sign::<%s, %d, %d>()" % (cs, n, L), "S3",
+                op("blind_sign_%s_len%d_L%d" % (sk_, n, L), "op_blind_sign::<%s, %d, %d>()" % (cs, n, L), "G",
                    dict(entry="blind_sign", suite=sk_, commitment_len=n, L=L))
     for (L, M, UB) in [(0, 0, "false"), (1, 0, "true"), (0, 1, "true"), (1, 1, "false")] + ([(2, 1, "true"), (1, 2, "true"), (2, 2, "false"), (0, 0, "true")] if th else []):
         for sk_, cs in one_suite(tier, seed, "c08vbs%d%d" % (L, M)):
-            op("verify_blind_sign_%s_L%d_M%d_%s" % (sk_, L, M, UB[0]), "op_verify_blind_sign::<%s, %d, %d, %s>()" % (cs, L, M, UB), "S3",
+            op("verify_blind_sign_%s_L%d_M%d_%s" % (sk_, L, M, UB[0]), "op_verify_blind_sign::<%s, %d, %d, %s>()" % (cs, L, M, UB), "G",
                dict(entry="verify_blind_sign", suite=sk_, L=L, M=M, blind_factor=UB))
     for n in ([1, 47, 48, 79, 112, 144] + ([113, 143, 145, 176] if th else [])):
         for Gn in ([0, 1, 2, 3] if th else pick(seed, "dcG%d" % n, [0, 1, 2, 3], 2)):
             for sk_, cs in one_suite(tier, seed, "c08dc%d" % n):
-                op("deser_commit_%s_len%d_G%d" % (sk_, n, Gn), "op_deser_commit::<%s, %d, %d>()" % (cs, n, Gn), "none",
+                op("deser_commit_%s_len%d_G%d" % (sk_, n, Gn), "op_deser_commit::<%s, %d, %d>()" % (cs, n, Gn), "G",
                    dict(entry="deserialize_and_validate_commit", suite=sk_, len=n, blind_generators=Gn))
     for (L, ISH) in [(0, 0), (0, 1), (1, 0), (2, 2), (2, 3), (2, 4), (2, 5)] + ([(3, 2), (2, 0), (3, 0), (1, 5)] if th else []):
         for sk_, cs in one_suite(tier, seed, "c08pg%d%d" % (L, ISH)):
-            op("proof_gen_%s_L%d_i%d" % (sk_, L, ISH), "op_proof_gen::<%s, 80, %d, %d>()" % (cs, L, ISH), "S3",
+            op("proof_gen_%s_L%d_i%d" % (sk_, L, ISH), "op_proof_gen::<%s, 80, %d, %d>()" % (cs, L, ISH), "G",
                dict(entry="proof_gen", suite=sk_, sig_len=80, L=L, index_shape=ISH))
     for (L, M, I1, I2) in [(0, 0, 0, 0), (2, 1, 3, 0), (1, 2, 0, 5), (2, 2, 2, 2)] + ([(2, 2, 4, 2), (2, 2, 2, 3), (1, 2, 0, 4)] if th else []):
         for sk_, cs in one_suite(tier, seed, "c08bpg%d%d" % (L, M)):
             op("blind_proof_gen_%s_L%d_M%d_i%d_%d" % (sk_, L, M, I1, I2),
-               "op_blind_proof_gen::<%s, %d, %d, %d, %d>()" % (cs, L, M, I1, I2), "S3",
+               "op_blind_proof_gen::<%s, %d, %d, %d, %d>()" % (cs, L, M, I1, I2), "G",
                dict(entry="blind_proof_gen", suite=sk_, L=L, M=M, index_shapes=[I1, I2]))
     for sk_, cs in one_suite(tier, seed, "c08up"):
         ups = [(0, 0, 0), (1, 0, 0), (1, 1, 0), (2, 1, 0), (2, 2, 0), (2, 3, 0), (1, 0, 1), (2, 0, 2)]
         if th:
             ups += [(3, 0, 0), (3, 2, 0), (3, 3, 0), (3, 4, 0), (0, 0, 1), (3, 0, 1)]
         for (N, UI, K) in ups:
-            op("update_%s_n%d_ui%s" % (sk_, N, ("max%d" % (K - 1)) if K else str(UI)), "op_update::<%s, %d, false, %d, %d>()" % (cs, N, UI, K), "S3",
+            op("update_%s_n%d_ui%s" % (sk_, N, ("max%d" % (K - 1)) if K else str(UI)), "op_update::<%s, %d, false, %d, %d>()" % (cs, N, UI, K), "G",
                dict(entry="update_signature", suite=sk_, n=N, update_index=("usize::MAX-%d" % (K - 1)) if K else UI))
-        op("update_%s_nmax_ui0" % sk_, "op_update::<%s, 0, true, 0, 0>()" % cs, "S3",
+        op("update_%s_nmax_ui0" % sk_, "op_update::<%s, 0, true, 0, 0>()" % cs, "G",
            dict(entry="update_signature", suite=sk_, n="usize::MAX", update_index=0))
-        op("update_%s_nmax_uimax" % sk_, "op_update::<%s, 0, true, 0, 1>()" % cs, "S3",
+        op("update_%s_nmax_uimax" % sk_, "op_update::<%s, 0, true, 0, 1>()" % cs, "G",
            dict(entry="update_signature", suite=sk_, n="usize::MAX", update_index="usize::MAX"))
     for sk_, cs in suites(tier, seed, "c08g"):
         for N in ([0, 1, 2, 3] if th else [0, 1, 2]):
-            op("generators_%s_n%d" % (sk_, N), "op_generators::<%s, %d>()" % (cs, N), "none",
+            op("generators_%s_n%d" % (sk_, N), "op_generators::<%s, %d>()" % (cs, N), "G",
                dict(entry="Generators::create", suite=sk_, count=N))
     return S
 
@@ -151,18 +151,17 @@ def c09(tier, seed):
         S.append(Spec("c09_canon_blind_sig_%s" % sk_, "c09::canon_blind_sig::<%s>()" % cs, 84, shape=dict(codec="BlindSignature octets", len=80), replay="canon"))
     S.append(Spec("c09_canon_blindfactor", "c09::canon_blindfactor()", 40, shape=dict(codec="BlindFactor octets", len=32), replay="canon"))
     S.append(Spec("c09_canon_coordinates", "c09::canon_coordinates()", 200, shape=dict(codec="PublicKey coordinates", len=192), replay="canon"))
-    for n in lens(tier, seed, "proofc", [240, 271, 272, 273, 280, 303, 304, 305, 320, 335, 336, 337], 400 if th else 340, extra=2):
-        if n < 240 and not th:
-            continue
-        S.append(Spec("c09_canon_proof_l%d" % n, "c09::canon_proof::<%d>()" % n, max(60, n + 2), shape=dict(codec="PoKSignature octets", len=n), replay="canon"))
-    for n in lens(tier, seed, "zkc", [32, 63, 64, 65, 80, 95, 96, 97, 128, 129], 160, extra=1):
-        if n < 32 and not th:
-            continue
-        S.append(Spec("c09_canon_zkpok_l%d" % n, "c09::canon_zkpok::<%d>()" % n, max(40, n + 2), shape=dict(codec="ZKPoK octets", len=n), replay="canon"))
-    for n in lens(tier, seed, "cmc", [80, 111, 112, 113, 128, 143, 144, 145, 176, 177], 208, extra=1):
-        if n < 80 and not th:
-            continue
-        S.append(Spec("c09_canon_commitment_l%d" % n, "c09::canon_commitment::<%d>()" % n, max(52, n + 2), shape=dict(codec="Commitment octets", len=n), replay="canon"))
+    for n in lens(tier, seed, "proofc", [239, 240, 271, 272, 273, 288, 303, 304, 305, 336, 337], 400 if th else 340, extra=2):
+        S.append(Spec("c09_canon_proof_l%d" % n, "c09::canon_proof::<%d>()" % n, max(100, n + 2), shape=dict(codec="PoKSignature octets (canonical framing + symbolic tail)", len=n), replay="canon"))
+    for n in lens(tier, seed, "zkc", [31, 32, 63, 64, 65, 80, 95, 96, 97, 128, 129], 160, extra=1):
+        S.append(Spec("c09_canon_zkpok_l%d" % n, "c09::canon_zkpok::<%d>()" % n, max(100, n + 2), shape=dict(codec="ZKPoK octets (canonical framing + symbolic tail)", len=n), replay="canon"))
+    for n in lens(tier, seed, "cmc", [47, 48, 80, 111, 112, 113, 128, 143, 144, 145, 176, 177], 208, extra=1):
+        S.append(Spec("c09_canon_commitment_l%d" % n, "c09::canon_commitment::<%d>()" % n, max(100, n + 2), shape=dict(codec="Commitment octets (canonical framing + symbolic tail)", len=n), replay="canon"))
+    for U in ([0, 1, 2] if th else [0, 1]):
+        for W in [0, 1, 2]:
+            n = 272 + 32 * U
+            S.append(Spec("c09_forbid_identity_proof_U%d_p%d" % (U, W), "c09::forbid_identity_proof::<%d, %d, %d>()" % (U, n, W), 100,
+                          shape=dict(codec="PoKSignature octets", identity_point=["Abar", "Bbar", "D"][W], U=U), replay="canon"))
     for nm in ["rt_pk", "rt_sk", "rt_sig", "rt_blindfactor"]:
         S.append(Spec("c09_" + nm, "c09::%s()" % nm, 200, shape=dict(roundtrip=nm[3:]), replay="canon"))
     for U in ([0, 1, 2, 3] if th else [0, 1, 2]):
@@ -174,4 +173,20 @@ def c09(tier, seed):
     return S
 
 
-PROPS = {"C08": c08, "C09": c09}
+def c01(tier, seed):
+    S = []
+    th = tier == "thorough"
+    # (L, header shape 0..3, msgs None?, message-length offset)
+    shapes = [(0, 0, "true", 0), (0, 1, "false", 0), (1, 2, "false", 1), (2, 0, "false", 0), (2, 3, "false", 1)]
+    if th:
+        shapes = [(L, H, "false", (L + H) % 3) for L in range(0, 4) for H in range(0, 4)] + [(0, 0, "true", 0), (0, 3, "true", 0)]
+    for (L, H, MN, ML) in shapes:
+        for sk_, cs in suites(tier, seed, "c01"):
+            S.append(Spec("c01_sign_%s_L%d_h%d_%s" % (sk_, L, H, MN[0]), "c01::sign_contract::<%s, %d, %d, %s, %d>()" % (cs, L, H, MN, ML), 100, "G", "A",
+                          shape=dict(contract="sign", suite=sk_, L=L, header_shape=H, msgs_none=MN, msg_len_offset=ML), replay="alg"))
+            S.append(Spec("c01_verify_%s_L%d_h%d_%s" % (sk_, L, H, MN[0]), "c01::verify_contract::<%s, %d, %d, %s, %d>()" % (cs, L, H, MN, ML), 100, "G", "A",
+                          shape=dict(contract="verify", suite=sk_, L=L, header_shape=H, msgs_none=MN, msg_len_offset=ML), replay="alg"))
+    return S
+
+
+PROPS = {"C01": c01, "C08": c08, "C09": c09}
